@@ -116,14 +116,25 @@ pub fn run(ctx: &Ctx) {
             grid.push(SignCase { hash: h, levels: vec![(8, 2)], seed: gen::SeedSpec::Random(k as u64), counter: (k % 4) as u64, counter_class: "msg-64k".into(), msg: gen::MsgSpec { len: *len, tag: k as u64 } });
         }
     }
-    // every message length 0..=200 (hash block boundaries of the message digest), rotating hash / W / counter
-    for len in 0..=200usize {
+    // every message length 0..=300 (hash block boundaries of the message digest), rotating hash / W / counter
+    for len in 0..=300usize {
       for h in ALL_HASHES {
         let w = [8u32, 4, 2, 1][(len / 6 + h.index()) % 4];
         grid.push(SignCase { hash: h, levels: vec![(w, 2)], seed: gen::SeedSpec::Random(len as u64), counter: (len % 4) as u64, counter_class: "msg-len".into(), msg: gen::MsgSpec { len, tag: len as u64 } });
       }
     }
     ctx.enumerate("grid_all_hash_w", grid.len() as u64, true, |i| grid[i as usize].clone(), |c| check_byte_exact(ctx, c));
+
+    // every leaf of one tree of height 10 (leaf numbers with a zero low byte, powers of two, every
+    // node of every level on some authentication path), and the same tree as child of a small root
+    let mut h10: Vec<SignCase> = Vec::new();
+    for q in 0..1024u64 {
+        h10.push(SignCase { hash: HashId::Sha256_128, levels: vec![(4, 10)], seed: gen::SeedSpec::Random(1010), counter: q, counter_class: "h10-every-leaf".into(), msg: gen::MsgSpec { len: 9, tag: q } });
+        if q % 4 == 1 || q % 256 == 0 || q % 256 == 255 {
+            h10.push(SignCase { hash: HashId::Shake256_192, levels: vec![(8, 2), (4, 10)], seed: gen::SeedSpec::Random(1011), counter: 2048 + q, counter_class: "h10-child-leaf".into(), msg: gen::MsgSpec { len: 9, tag: q } });
+        }
+    }
+    ctx.enumerate("h10_every_leaf", h10.len() as u64, true, |i| h10[i as usize].clone(), |c| check_byte_exact(ctx, c));
 
     // from key generation onwards: the key pair as keygen returns it (seed object built either way,
     // with / without aux data), signed with, and checked against the reference signer / verifier
